@@ -123,6 +123,31 @@ def main():
     facts.append("Definition rescale_prob_clamped_to_one : bool := %s." %
                  ("true" if re.search(r"fn\s+rescale_prob[^}]*rescale\(prob,\s*rng\)\s*\.min\(\s*1\.0\s*\)", ma) else "false"))
 
+    def fn_body(src, name, what):
+        m = need(r"fn\s+" + name + r"\b[^{]*\{(.*?)\n\}", src, what)
+        return re.sub(r"\s+", "", m.group(1))
+    rb = fn_body(ma, "rescale", "meta_adapt::rescale")
+    facts.append("Definition rescale_is_clamped_product : bool := %s." % ("true" if (
+        "letexponent:f64=Cauchy::new(0.0,META_PARAMS_MUTATION_EXPONENT_SCALE).unwrap().sample(rng);" in rb
+        and "letfactor=10.0f64.powf(exponent);" in rb
+        and rb.endswith("value*factor.clamp(META_PARAMS_MUTATION_RESCALE_FLOOR,META_PARAMS_MUTATION_RESCALE_CEIL)")) else "false"))
+    mb = fn_body(ma, "mutate", "meta_adapt::mutate")
+    facts.append("Definition meta_mutate_rescales_each_field : bool := %s." % ("true" if (
+        "crossover_prob:rescale_prob(crossover_params.crossover_prob,rng)," in mb
+        and "selection_pressure:rescale_prob(crossover_params.selection_pressure,rng)," in mb
+        and "mutation_prob:rescale_prob(mutation_params.mutation_prob,rng)," in mb
+        and "mutation_scale:rescale(mutation_params.mutation_scale,rng)," in mb
+        and mb.endswith("(crossover_params,mutation_params)")) else "false"))
+    eb = fn_body(ma, "create_exploratory", "meta_adapt::create_exploratory")
+    facts.append("Definition exploratory_is_mutated_base : bool := %s." % ("true" if eb.endswith("mutate(crossover_params,mutation_params,rng)") else "false"))
+
+    se = strip_comments(read_nontest("selection.rs"))
+    m = need(r"fn\s+select_ref<[^{]*\{(.*?)\n    \}", se, "SelectionImpl::select_ref")
+    sb = re.sub(r"\s+", "", m.group(1))
+    facts.append("Definition select_ref_is_bernoulli_walk_then_uniform : bool := %s." % ("true" if sb ==
+        "letdist=Bernoulli::new(selection_pressure).unwrap();forindividualinindividuals_ordered{ifdist.sample(rng){returnindividual;}}individuals_ordered.choose(rng).unwrap()"
+        else "false"))
+
     mu = strip_comments(read_nontest("mutation.rs"))
     need(r"let\s+key\s*=\s*path_node_ctx\.next_key\(\)\s*;", mu, "key allocation in mutate_anon_map")
     reg = re.search(r"path_node_ctx\.on_keys_seen\(\s*value_map\.keys\(\)\s*\)\s*;\s*let\s+key\s*=\s*path_node_ctx\.next_key\(\)\s*;", mu)
